@@ -98,7 +98,8 @@ fn model(ns: &str, name: &str) -> dmntk_model::model::Definitions {
 }
 
 fn main() {
-  std::panic::set_hook(Box::new(|_| {}));
+  // panics are caught and reported by the commands; VERIF_PANIC_MESSAGES=1 shows where they come from
+  if std::env::var("VERIF_PANIC_MESSAGES").is_err() { std::panic::set_hook(Box::new(|_| {})); }
   let args: Vec<String> = std::env::args().collect();
   match args.get(1).map(|s| s.as_str()) {
     Some("feel") => {
@@ -277,6 +278,25 @@ fn main() {
         let ok = match serde_json::from_str::<serde_json::Value>(&text) { Ok(doc) => doc.get("data").map(|d| json_matches(&v, d)).unwrap_or(false), Err(_) => false };
         if !ok { nfail += 1; if failures.len() < 5 { failures.push(format!("{} rendered as {}", e, text.chars().take(300).collect::<String>())); } }
       }
+      // numbers against their value written out here (not against the number's own text form): small and large magnitudes of both
+      // signs, results whose decimal128 form has a positive or a large negative exponent, zeros with an exponent
+      let numbers: Vec<(&str, f64)> = vec![("-0.0000001", -1e-7), ("-0.00000015", -1.5e-7), ("0.0000001", 1e-7), ("0.00000015", 1.5e-7), ("-(1/4)*0.000001", -2.5e-7), ("(1/4)*0.000001", 2.5e-7),
+        ("1000*1000", 1e6), ("-1000*1000", -1e6), ("1500*1000", 1.5e6), ("10 ** 30", 1e30), ("-(10 ** 30)", -1e30), ("10 ** -30", 1e-30), ("-(10 ** -30)", -1e-30), ("1.25 * 10 ** 20", 1.25e20), ("-1.25 * 10 ** -20", -1.25e-20),
+        ("number(\"0E+3\", null, \".\")", 0.0), ("number(\"0E-10\", null, \".\")", 0.0), ("number(\"-1.5E+3\", null, \".\")", -1500.0), ("number(\"1.5E-9\", null, \".\")", 1.5e-9), ("0 * 1000", 0.0), ("-0.5", -0.5), ("-12.75", -12.75), ("0.000001", 1e-6), ("-0.000001", -1e-6)];
+      for (e, expected) in numbers {
+        for wrap in ["{}", "[{}]", "{{n: {}}}"] {
+          let expr = wrap.replace("{}", e).replace("{{", "{").replace("}}", "}");
+          let v = lit(&expr);
+          if let Value::Null(_) = v { continue; }
+          cases += 1;
+          let text = format!("{{\"data\":{}}}", v.jsonify());
+          let ok = match serde_json::from_str::<serde_json::Value>(&text) {
+            Ok(doc) => { let d = &doc["data"]; let num = if d.is_array() { &d[0] } else if d.is_object() { &d["n"] } else { d }; num.as_f64().map(|x| (x - expected).abs() <= expected.abs() * 1e-12).unwrap_or(false) }
+            Err(_) => false,
+          };
+          if !ok { nfail += 1; if failures.len() < 5 { failures.push(format!("{} rendered as {} (expected the number {:e})", expr, text.chars().take(300).collect::<String>(), expected)); } }
+        }
+      }
       println!("json cases={} failures={}", cases, nfail);
       for f in failures { println!("FAIL {}", f); }
     }
@@ -423,6 +443,87 @@ fn main() {
         match r { Ok((e, c)) => out.push_str(&format!("{}\t{}\t{}\t{}\n", n1, n2, e, c)), Err(_) => out.push_str(&format!("{}\t{}\tPANIC\tPANIC\n", n1, n2)) }
       } }
       print!("{}", out);
+    }
+    Some("purity") => {
+      // purity <file>: BOUNDED stand-in (not a proof) for C13 / C01: every line is an expression over the names a = 9, b = 2, base = 8,
+      // xs = [1,2,3], people = [{name: "n1", age: 30, item: 1}, {name: "n2", age: 40, item: 2}], f = function(x) x + base.
+      // Parsing must leave the parsing scope as it found it; evaluating must leave the scope as it found it, evaluating a second time
+      // must give the same value, and afterwards `a + b + base` must still be 19 over the same scope.
+      let text = std::fs::read_to_string(&args[2]).unwrap_or_default();
+      let mut cases = 0usize;
+      let mut nfail = 0usize;
+      let mut failures: Vec<String> = vec![];
+      for line in text.lines().map(|l| l.trim()).filter(|l| !l.is_empty()) {
+        cases += 1;
+        let e = line.to_string();
+        let r = std::panic::catch_unwind(std::panic::AssertUnwindSafe(move || -> std::result::Result<(), String> {
+          let scope = Scope::default();
+          let setup = "{a: 9, b: 2, base: 8, xs: [1,2,3], people: [{name: \"n1\", age: 30, item: 1}, {name: \"n2\", age: 40, item: 2}]}";
+          let ctx = dmntk_feel_evaluator::evaluate_context(&scope, setup).map_err(|e| format!("setup: {}", e))?;
+          for (k, v) in ctx.iter() { scope.set_entry(k, v.clone()); }
+          let fnode = dmntk_feel_parser::parse_expression(&scope, "function(x) x + base", false).map_err(|e| format!("setup: {}", e))?;
+          let fval = dmntk_feel_evaluator::prepare(&fnode).map_err(|e| format!("setup: {}", e))?(&scope);
+          scope.set_entry(&"f".into(), fval);
+          let before = scope.to_string();
+          let node = match dmntk_feel_parser::parse_expression(&scope, &e, false) { Ok(n) => n, Err(_) => return Ok(()) };   // the property speaks of successful parses
+          if scope.to_string() != before { return Err(format!("parsing changed the scope from {} into {}", before, scope)); }
+          let ev = match dmntk_feel_evaluator::prepare(&node) { Ok(ev) => ev, Err(_) => return Ok(()) };
+          let v1 = ev(&scope).to_string();
+          if scope.to_string() != before { return Err(format!("evaluating (=> {}) changed the scope from {} into {}", v1, before, scope)); }
+          let v2 = ev(&scope).to_string();
+          if v1 != v2 { return Err(format!("first evaluation => {}, second evaluation => {}", v1, v2)); }
+          let probe = dmntk_feel_parser::parse_expression(&scope, "a + b + base", false).map_err(|e| format!("probe: {}", e))?;
+          let pv = dmntk_feel_evaluator::prepare(&probe).map_err(|e| format!("probe: {}", e))?(&scope).to_string();
+          if pv != "19" { return Err(format!("afterwards `a + b + base` => {} (expected 19)", pv)); }
+          Ok(())
+        }));
+        match r {
+          Ok(Ok(())) => {}
+          Ok(Err(m)) => { nfail += 1; if failures.len() < 5 { failures.push(format!("{} : {}", line, m)); } }
+          Err(_) => { nfail += 1; if failures.len() < 5 { failures.push(format!("{} => PANIC", line)); } }
+        }
+      }
+      println!("purity cases={} failures={}", cases, nfail);
+      for f in failures { println!("FAIL {}", f); }
+    }
+    Some("recognizecorrupt") => {
+      // recognizecorrupt <listfile>: BOUNDED stand-in (not a proof) for "arbitrary text is either recognised or rejected with an error,
+      // never with a panic" on single-character corruptions: for every drawing listed, every character position is replaced by each of
+      // 28 characters (blank, every box-drawing character the recognizer knows, a letter, a digit, a line feed), deleted, and preceded by one of four inserted characters; the real
+      // dmntk_recognizer::build must answer (Ok or Err) within 10 seconds.
+      let list = std::fs::read_to_string(&args[2]).unwrap_or_default();
+      let alphabet: Vec<char> = " ─│┌┐└┘├┤┬┴┼═║╞╟╡╢╤╥╧╨╪╫╬x1\n".chars().collect();
+      let mut cases = 0usize;
+      let mut nfail = 0usize;
+      let mut failures: Vec<String> = vec![];
+      'files: for path in list.lines().map(|l| l.trim()).filter(|l| !l.is_empty()) {
+        let text: Vec<char> = std::fs::read_to_string(path).unwrap_or_default().chars().collect();
+        let (mut line, mut col) = (1usize, 1usize);
+        for i in 0..text.len() {
+          let original = text[i];
+          let mut variants: Vec<(String, Vec<char>)> = vec![];
+          for &c in &alphabet {
+            if c != original { let mut t = text.clone(); t[i] = c; variants.push((format!("replaced by {:?}", c), t)); }
+          }
+          let mut t = text.clone(); t.remove(i); variants.push(("deleted".to_string(), t));
+          for &c in &['│', '═', ' ', '\n'] { let mut t = text.clone(); t.insert(i, c); variants.push((format!("preceded by an inserted {:?}", c), t)); }
+          for (what, t) in variants {
+            cases += 1;
+            let input: String = t.into_iter().collect();
+            let (tx, rx) = std::sync::mpsc::channel();
+            std::thread::spawn(move || { let r = std::panic::catch_unwind(move || dmntk_recognizer::build(&input).is_ok()); let _ = tx.send(r.is_ok()); });
+            match rx.recv_timeout(std::time::Duration::from_secs(10)) {
+              Ok(true) => {}
+              Ok(false) => { nfail += 1; if failures.len() < 5 { failures.push(format!("{} with the character {:?} at line {} column {} {} => PANIC", path, original, line, col, what)); } }
+              Err(_) => { nfail += 1; failures.push(format!("{} with the character {:?} at line {} column {} {} => no answer within 10 s", path, original, line, col, what)); break 'files; }
+            }
+          }
+          if original == '\n' { line += 1; col = 1; } else { col += 1; }
+        }
+      }
+      println!("recognizecorrupt cases={} failures={}", cases, nfail);
+      for f in failures { println!("FAIL {}", f); }
+      std::process::exit(0);
     }
     Some("recognizedump") => {
       // recognizedump <listfile>: each line is the path of a text drawing; prints one line per file with every field of the recognised
